@@ -34,6 +34,14 @@ FULLY_SWEPT = [
 ]
 
 
+# message numbers are inode numbers: beyond 32 bits on file systems with 64-bit inodes. One recipient finishes while another is deferred, so
+# the address list outlives the job; then the retry, an ALRM and a clean restart (added after seeded change C04-M)
+BIG = [dict(fx([{"sender": "s@rem.example", "rcpts": ["joe@loc.example", "ann@loc.example", "r@rem.example", "q@rem.example"], "body": "x\n", "preplaced_id": n}],
+               {"0:0": "K", "0:1": "ZZK", "0:2": "ZK", "0:3": "D"}, [], ["answer", "inject", "advance", "alrm", "term"]), plan=plan)
+       for n in (2 ** 32 + 4242, 2 ** 40 + 7, 4242, 2 ** 63 + 11)
+       for plan in (["answer", "answer", "answer", "answer", "alrm", "answer", "answer", "term"], ["answer", "answer", "answer", "answer", "term", "advance_due"])]
+
+
 def wide(limits, conc, nloc, nrem, tape=()):
     """more simultaneously deliverable recipients than the announced limit allows (added after seeded change C04-D: limit bytes 128..255 and
     configured values above them; the random scenarios have at most 12 recipients and can never fill such a channel)"""
@@ -53,7 +61,7 @@ WIDE = [
 
 def run(ctx):
     q.search(ctx, "C04", TAGS, 0, 0, sweep={"all": True, "kept_only": True, "restarts": True}, fixed=FULLY_SWEPT)
-    q.search(ctx, "C04", TAGS, 0, 0, fixed=WIDE)
+    q.search(ctx, "C04", TAGS, 0, 0, fixed=WIDE + BIG)
     q.search(ctx, "C04", TAGS, 50, 700, sweep={"crash_kept": 4, "fault": 3, "restarts": True})
 
 
